@@ -272,7 +272,7 @@ func main() {
 	n := e.N(70, 600)
 	for i := 0; i < n; i++ {
 		rng := root.Fork()
-		o := rmkit.GenOpts{SchemaChange: 3, MaxKeys: 8}
+		o := rmkit.GenOpts{SchemaChange: 3, MaxKeys: 8, Cellwise: 3}
 		if rng.Chance(1, 6) {
 			o.MaxKeys = 60 // several chunks are out of reach of SQL-sized tables; still exercises range logic a little
 		}
